@@ -49,7 +49,8 @@ type Opt struct {
 	Inc  string `json:"inc"`  // IgnoreInconsistency: "absent", "off", "on"
 	Thr  bool   `json:"thr"`  // Threshold(d) present
 	Cf   string `json:"cf"`   // ChildFilter: "absent", "all", "none"
-	Ignx bool   `json:"ignx"` // an explicit IgnoreMissingChildren(false) in front
+	Ignx int    `json:"ignx"` // pattern number of the sequence below (informative)
+	Imc  []bool `json:"imc"`  // the IgnoreMissingChildren(b) calls of the option list, in order
 }
 
 type Case struct {
@@ -361,8 +362,9 @@ func run(c Case) (g Got) {
 	}
 	ds := renderDS(m, c.Hist)
 	var opts []annotate.Option
-	if c.Opt.Ignx {
-		opts = append(opts, annotate.IgnoreMissingChildren(false))
+	// option list: first IgnoreMissingChildren setting, the other options, the remaining IgnoreMissingChildren settings
+	if len(c.Opt.Imc) > 0 {
+		opts = append(opts, annotate.IgnoreMissingChildren(c.Opt.Imc[0]))
 	}
 	switch c.Opt.Inc {
 	case "on":
@@ -379,8 +381,8 @@ func run(c Case) (g Got) {
 	case "none":
 		opts = append(opts, annotate.ChildFilter(func(osm.FeatureID) bool { return false }))
 	}
-	if c.Ign {
-		opts = append(opts, annotate.IgnoreMissingChildren(true))
+	for i := 1; i < len(c.Opt.Imc); i++ {
+		opts = append(opts, annotate.IgnoreMissingChildren(c.Opt.Imc[i]))
 	}
 	diff, err := annotate.Change(context.Background(), change, ds, opts...)
 	if err != nil {
